@@ -28,9 +28,11 @@ import (
 	"bufio"
 	"bytes"
 	"compress/flate"
+	"context"
 	"errors"
 	"fmt"
 	"io"
+	"net"
 	"net/http"
 	"net/url"
 	"runtime"
@@ -38,6 +40,7 @@ import (
 	"runtime/metrics"
 	"strings"
 	"testing"
+	"time"
 
 	"github.com/gobwas/httphead"
 	"github.com/gobwas/ws"
@@ -55,6 +58,10 @@ func TestMain(m *testing.M) { hx.Main(m, "C15") }
 // sigF7 is the known-findings signature of "ReadFrame / ReadMessage allocate
 // the announced length" (DESIGN.md §5, F7).
 const sigF7 = "C15/readframe-readmessage-allocate-announced-length"
+
+// sigUnchecked: ControlHandler sizes buffers by the Length of a header it was
+// handed without the (documented as optional) ws.CheckHeader.
+const sigUnchecked = "C15/controlhandler-unchecked-header-allocates-announced-length"
 
 // capLen is the largest announced length let through to the entry points
 // that allocate by announced length while the finding is present.
@@ -145,7 +152,19 @@ func hexHead(b []byte, n int) string {
 
 // note records a case for the evidence file: class histogram plus, when the
 // case is non-trivial, the distinct-input set and the sample reservoir.
+// quiet suppresses note (bulk deterministic loops record their own evidence).
+var quiet bool
+
+func quietly(fn func() error) error {
+	quiet = true
+	defer func() { quiet = false }()
+	return fn()
+}
+
 func note(target, entry string, nontrivial bool, data []byte) {
+	if quiet {
+		return
+	}
 	if nontrivial {
 		hx.Class(target + "/" + entry + "/deep")
 		hx.NonTrivial(hx.Hash(target, data), func() interface{} {
@@ -205,7 +224,11 @@ const (
 // child-process table in extreme_test.go.
 const inProcCap = 64 << 20
 
-var frameEntries = []string{"ReadHeader", "ReadFrame", "Reader", "ReadMessage", "ReadData", "ControlHandler"}
+var frameEntries = []string{"ReadHeader", "ReadFrame", "Reader", "ReadMessage", "ReadData", "ControlHandler",
+	"NextReader", "ReadSideData", "ReadSideMessage+HandleControlMessage", "PayloadHelpers"}
+
+// contBit added to the entry byte switches the Reader entry to continue mode.
+var contBit = byte(len(frameEntries))
 
 const frameCtl = 4
 
@@ -313,7 +336,7 @@ func targetFrames(data []byte) error {
 func execFrames(data []byte) (deep bool, err error) {
 	o, stream := decodeFrameOpts(data)
 	wk := walk(stream)
-	if frameEntries[o.entry] != "ReadHeader" {
+	if e := frameEntries[o.entry]; e != "ReadHeader" && e != "PayloadHelpers" {
 		for _, w := range wk {
 			if w.h.Length > inProcCap {
 				hx.Class("frames/" + frameEntries[o.entry] + "/announced>64MiB-left-to-child-table")
@@ -425,6 +448,11 @@ func runFrames(o frameOpts, stream []byte) (deep bool, err error) {
 				break
 			}
 			n++
+			// header-level helpers on whatever header the peer sent
+			_ = ws.CheckHeader(h, o.state)
+			_, _, _ = wsflate.UnsetBit(h)
+			_, _ = wsflate.IsCompressed(h)
+			_ = ws.HeaderSize(h)
 			skip := h.Length
 			if rem := int64(len(src.Data) - src.Pos); skip > rem {
 				skip = rem
@@ -485,6 +513,153 @@ func runFrames(o frameOpts, stream []byte) (deep bool, err error) {
 		if err != nil {
 			return deep, err
 		}
+
+	case "NextReader":
+		// one reader per message, as the helper is meant to be used
+		var viol error
+		n := 0
+		for {
+			_, r, e := wsutil.NextReader(ds, o.state)
+			if e != nil {
+				break
+			}
+			n++
+			_, e = drain(r, src, o.bufSize, maxOut, &viol)
+			if viol != nil {
+				return true, fmt.Errorf("reader returned by NextReader: %v", viol)
+			}
+			if e == errStall {
+				return true, fmt.Errorf("reader returned by NextReader: Read returned (0, nil) more than 64 times in a row without reading the transport")
+			}
+			if e != io.EOF {
+				break
+			}
+		}
+		deep = n > 0
+
+	case "ReadSideData":
+		// the side-specific shortcuts, including the ones that want one kind of message and discard the other
+		if err := preCheck(o, stream, what); err != nil {
+			return true, err
+		}
+		rw := tx.RW{Reader: ds, Writer: rec}
+		n := 0
+		for {
+			var e error
+			switch {
+			case o.state.ServerSide() && o.discard:
+				_, e = wsutil.ReadClientText(rw)
+			case o.state.ServerSide() && o.handle:
+				_, e = wsutil.ReadClientBinary(rw)
+			case o.state.ServerSide():
+				_, _, e = wsutil.ReadClientData(rw)
+			case o.state.ClientSide() && o.discard:
+				_, e = wsutil.ReadServerText(rw)
+			case o.state.ClientSide() && o.handle:
+				_, e = wsutil.ReadServerBinary(rw)
+			case o.state.ClientSide():
+				_, _, e = wsutil.ReadServerData(rw)
+			default:
+				_, _, e = wsutil.ReadData(rw, o.state)
+			}
+			if e != nil {
+				break
+			}
+			n++
+		}
+		deep = n > 0 || rec.Len() > 0
+
+	case "ReadSideMessage+HandleControlMessage":
+		// ReadClientMessage / ReadServerMessage, every control message they
+		// return handed to HandleControlMessage and its shortcuts (their
+		// documented use: payload unmasked, header checked by the reader)
+		if err := preCheck(o, stream, what); err != nil {
+			return true, err
+		}
+		n := 0
+		for {
+			if h, ok := peek(src.Remaining()); ok && h.Fin && h.Length > capLen && ws.CheckHeader(toWS(h), o.state) == nil && withholdBig() {
+				hx.Exclude(sigF7)
+				break
+			}
+			var msgs []wsutil.Message
+			var e error
+			switch {
+			case o.state.ServerSide():
+				msgs, e = wsutil.ReadClientMessage(ds, nil)
+			case o.state.ClientSide():
+				msgs, e = wsutil.ReadServerMessage(ds, nil)
+			default:
+				msgs, e = wsutil.ReadMessage(ds, o.state, nil)
+			}
+			stop := e != nil
+			for _, m := range msgs {
+				if !m.OpCode.IsControl() {
+					continue
+				}
+				var he error
+				switch {
+				case o.state.ServerSide() && o.handle:
+					he = wsutil.HandleClientControlMessage(rec, m)
+				case o.state.ClientSide() && o.handle:
+					he = wsutil.HandleServerControlMessage(rec, m)
+				default:
+					he = wsutil.HandleControlMessage(rec, o.state, m)
+				}
+				if he != nil {
+					stop = true
+				}
+			}
+			if stop {
+				break
+			}
+			n++
+		}
+		deep = n > 0 || rec.Len() > 0
+
+	case "PayloadHelpers":
+		// the bytes are a payload, not a stream: close-frame body parsers,
+		// the cipher and the streaming UTF-8 / cipher readers over it
+		code, reason := ws.ParseCloseFrameData(stream)
+		_ = ws.CheckCloseFrameData(code, reason)
+		code, reason = ws.ParseCloseFrameDataUnsafe(stream)
+		_ = ws.CheckCloseFrameData(code, reason)
+		mask := [4]byte{0x1f, 0x2e, 0x3d, 0x4c}
+		if len(stream) >= 4 {
+			copy(mask[:], stream)
+		}
+		cp := append([]byte(nil), stream...)
+		ws.Cipher(cp, mask, len(stream)%7)
+		f := ws.UnmaskFrame(ws.MaskFrameWith(ws.NewFrame(ws.OpBinary, true, cp), mask))
+		_ = ws.UnmaskFrameInPlace(f)
+		var viol error
+		u := wsutil.NewUTF8Reader(ds)
+		_, e := drain(u, src, o.bufSize, 0, &viol)
+		_, _ = u.Valid(), u.Accepted()
+		if viol == nil && e != errStall {
+			src2 := tx.NewSrc(stream, o.chunks)
+			u.Reset(src2)
+			_, e = drain(u, src2, 7, 0, &viol)
+			_, _ = u.Valid(), u.Accepted()
+		}
+		if viol == nil && e != errStall {
+			src3 := tx.NewSrc(stream, o.chunks)
+			src3.EOFWithData = o.eofData
+			c := wsutil.NewCipherReader(src3, mask)
+			_, e = drain(c, src3, o.bufSize, 0, &viol)
+			src3.Pos = 0
+			c.Reset(src3, [4]byte{})
+			if viol == nil && e != errStall {
+				_, e = drain(c, src3, 3, 0, &viol)
+			}
+		}
+		if viol != nil {
+			return true, fmt.Errorf("UTF8Reader / CipherReader: %v", viol)
+		}
+		if e == errStall {
+			return true, fmt.Errorf("UTF8Reader / CipherReader: Read returned (0, nil) more than 64 times in a row without reading its source")
+		}
+		deep = len(stream) > 0
 
 	case "ControlHandler":
 		for _, w := range walk(stream) {
@@ -809,12 +984,14 @@ func acceptProtocol(p string) bool {
 }
 
 type reqOpts struct {
-	http    bool
-	extMode int // 0 none, 1 Extension selector, 2 Negotiate = wsflate, 3 custom parsers
-	rbuf    int
-	wbuf    int
-	eofData bool
-	chunks  []int
+	debug    bool // raw upgrader wrapped in wsutil.DebugUpgrader with both callbacks set
+	selector int  // HTTP upgrader: 0 harness predicate, 1 ws.SelectFromSlice (short list), 2 ws.SelectFromSlice (map form), 3 ws.SelectEqual
+	http     bool
+	extMode  int // 0 none, 1 Extension selector, 2 Negotiate = wsflate, 3 custom parsers
+	rbuf     int
+	wbuf     int
+	eofData  bool
+	chunks   []int
 }
 
 const reqCtl = 3
@@ -827,7 +1004,10 @@ func decodeReqOpts(data []byte) (o reqOpts, req []byte) {
 	o.wbuf = []int{0, 16, 64, 4096}[a>>5&3]
 	o.eofData = a&0x80 != 0
 	o.chunks = chunkPlan(b)
-	_ = data[2] // reserved
+	// data[2]: low nibble = wsflate configuration, 0x10 = through wsutil.DebugUpgrader (raw upgrader),
+	// 0x60 = which subprotocol selector the HTTP upgrader gets
+	o.debug = data[2]&0x10 != 0
+	o.selector = int(data[2] >> 5 & 3)
 	return o, data[reqCtl:]
 }
 
@@ -855,9 +1035,9 @@ func rawUpgrader(o reqOpts, k byte, calls *int) ws.Upgrader {
 		WriteBufferSize: o.wbuf,
 		Protocol:        func(p []byte) bool { *calls++; return acceptProtocol(string(p)) },
 		Header:          ws.HandshakeHeaderString("X-C15: always\r\n"),
-		OnRequest:       func(uri []byte) error { *calls++; return nil },
-		OnHost:          func(host []byte) error { *calls++; return nil },
-		OnHeader:        func(key, value []byte) error { *calls++; return nil },
+		OnRequest:       func(uri []byte) error { *calls += 1 + len(string(uri)); return nil },
+		OnHost:          func(host []byte) error { *calls += 1 + len(string(host)); return nil },
+		OnHeader:        func(key, value []byte) error { *calls += 1 + len(string(key)) + len(string(value)); return nil },
 		OnBeforeUpgrade: func() (ws.HandshakeHeader, error) {
 			*calls++
 			return ws.HandshakeHeaderString("X-C15-Before: yes\r\n"), nil
@@ -897,6 +1077,14 @@ func httpUpgrader(o reqOpts, k byte, calls *int) ws.HTTPUpgrader {
 	u := ws.HTTPUpgrader{
 		Protocol: func(p string) bool { *calls++; return acceptProtocol(p) },
 		Header:   http.Header{"X-C15": []string{"always"}},
+	}
+	switch o.selector {
+	case 1:
+		u.Protocol = ws.SelectFromSlice([]string{"chat", "v1.json", "mqtt", "x"})
+	case 2:
+		u.Protocol = ws.SelectFromSlice([]string{"a", "b", "c", "d", "e", "f", "g", "h", "i", "j", "k", "l", "m", "n", "o", "p", "chat", "q", "mqtt"})
+	case 3:
+		u.Protocol = ws.SelectEqual("chat")
 	}
 	switch o.extMode {
 	case 1, 3:
@@ -944,6 +1132,16 @@ func runRequest(o reqOpts, k byte, req []byte) error {
 	src.EOFWithData = o.eofData
 	rec := newRec(len(req))
 	calls := 0
+	if !o.http && o.debug {
+		seen := 0
+		du := wsutil.DebugUpgrader{
+			Upgrader:   rawUpgrader(o, k, &calls),
+			OnRequest:  func(p []byte) { seen += len(string(p)) },
+			OnResponse: func(p []byte) { seen += len(string(p)) },
+		}
+		_, _ = du.Upgrade(tx.RW{Reader: src, Writer: rec})
+		return srcOracle("DebugUpgrader.Upgrade", src, rec)
+	}
 	if !o.http {
 		u := rawUpgrader(o, k, &calls)
 		_, _ = u.Upgrade(tx.RW{Reader: src, Writer: rec})
@@ -1039,6 +1237,21 @@ func (p *lazyPeer) Read(b []byte) (int, error) {
 	return p.src.Read(b)
 }
 
+// peerConn makes the fake server a net.Conn for Dialer.Dial.
+type peerConn struct{ *lazyPeer }
+
+type peerAddr struct{}
+
+func (peerAddr) Network() string { return "tcp" }
+func (peerAddr) String() string  { return "c15-peer" }
+
+func (peerConn) Close() error                     { return nil }
+func (peerConn) LocalAddr() net.Addr              { return peerAddr{} }
+func (peerConn) RemoteAddr() net.Addr             { return peerAddr{} }
+func (peerConn) SetDeadline(time.Time) error      { return nil }
+func (peerConn) SetReadDeadline(time.Time) error  { return nil }
+func (peerConn) SetWriteDeadline(time.Time) error { return nil }
+
 func (p *lazyPeer) oracle(what string) error {
 	if p.wrun {
 		return fmt.Errorf("%s: more than %d writes of the request: the library loops writing", what, p.wlimit)
@@ -1050,6 +1263,8 @@ func (p *lazyPeer) oracle(what string) error {
 }
 
 type respOpts struct {
+	dial    bool // through ws.Dialer.Dial (NetDial returns the fake server) instead of Dialer.Upgrade
+	debug   bool // through wsutil.DebugDialer.Dial with both callbacks set
 	cfg     int
 	rbuf    int
 	eofData bool
@@ -1065,6 +1280,8 @@ func decodeRespOpts(data []byte) (o respOpts, resp []byte) {
 	o.rbuf = []int{0, 16, 64, 512}[a>>2&3]
 	o.eofData = a&0x10 != 0
 	o.status = a&0x20 == 0
+	o.dial = a&0x40 != 0
+	o.debug = a&0x80 != 0
 	o.chunks = chunkPlan(data[1])
 	return o, data[respCtl:]
 }
@@ -1116,13 +1333,37 @@ func runResponse(o respOpts, resp []byte) error {
 		Protocols:      cfg.protocols,
 		Extensions:     cfg.extensions(),
 		Header:         ws.HandshakeHeaderString("X-C15: client\r\n"),
-		OnHeader:       func(key, value []byte) error { calls++; return nil },
+		OnHeader:       func(key, value []byte) error { calls += 1 + len(string(key)) + len(string(value)); return nil },
 	}
 	if o.status {
 		d.OnStatusError = func(status int, reason []byte, r io.Reader) {
 			calls++
 			_, _ = io.Copy(io.Discard, io.LimitReader(r, 1<<16))
 		}
+	}
+	if o.dial || o.debug {
+		d.NetDial = func(ctx context.Context, network, addr string) (net.Conn, error) { return peerConn{peer}, nil }
+		var br *bufio.Reader
+		what := "Dialer.Dial"
+		if o.debug {
+			what = "DebugDialer.Dial"
+			seen := 0
+			dd := wsutil.DebugDialer{Dialer: d,
+				OnRequest:  func(p []byte) { seen += len(string(p)) },
+				OnResponse: func(p []byte) { seen += len(string(p)) },
+			}
+			_, br, _, _ = dd.Dial(context.Background(), dialURL.String())
+		} else {
+			_, br, _, _ = d.Dial(context.Background(), dialURL.String())
+		}
+		if br != nil {
+			// what the server sent right after its head has to be readable from the returned buffer
+			_, _ = io.Copy(io.Discard, io.LimitReader(br, 1<<20))
+			if !o.debug {
+				ws.PutReader(br)
+			}
+		}
+		return peer.oracle(what)
 	}
 	br, _, _ := d.Upgrade(peer, dialURL)
 	if br != nil {
@@ -1232,7 +1473,7 @@ func runOptions(entry int, k byte, value []byte) (deep bool, err error) {
 
 const defCtl = 2
 
-var defEntries = []string{"Helper.DecompressFrame(counted)", "wsflate.Reader", "wsflate.Reader(ByteReader)", "DecompressFrame", "wsflate.Reader(reused)"}
+var defEntries = []string{"Helper.DecompressFrame(counted)", "wsflate.Reader", "wsflate.Reader(ByteReader)", "DecompressFrame", "wsflate.Reader(reused)", "Helper.DecompressTo+Decompress"}
 
 // partSep separates the compressed payloads of the reused-reader entry.
 var partSep = []byte{0xde, 0xad, 0xbe, 0xef}
@@ -1360,6 +1601,27 @@ func runDeflate(entry int, rsv1, reuse, eofData bool, planByte byte, payload []b
 			}
 			return out, srcOracle("wsflate.Reader after Reset", src2, nil)
 		}
+		return out, nil
+
+	case 5:
+		// the byte-slice helpers: bounded first (counted decompressor source),
+		// the unbounded ones only with what stayed below the bound
+		h := wsflate.Helper{Decompressor: ctor}
+		var buf boundedBuf
+		_ = h.DecompressTo(&buf, payload)
+		if e := runaway("Helper.DecompressTo"); e != nil {
+			return 0, e
+		}
+		out = int64(buf.Len())
+		if buf.full || len(payload) > 4096 {
+			hx.Class("deflate/Decompress/skipped-unbounded")
+			return out, nil
+		}
+		_, _ = h.Decompress(payload)
+		if e := runaway("Helper.Decompress"); e != nil {
+			return out, e
+		}
+		_, _ = wsflate.DefaultHelper.Decompress(payload)
 		return out, nil
 
 	case 4:
